@@ -341,8 +341,12 @@ def execute_step(m: Machine, step, prop_of):
             new.append(add_entry(m, step["uid"] + ".0", o, mm, "merge"))
         elif op == "df_roundtrip":
             df = evo.pandas_bridge.trajectory_to_df(e.obj)
+            df0 = df.copy(deep=True)
             o = evo.pandas_bridge.df_to_trajectory(
                 df, as_type=None if e.stamped else T.PosePath3D)
+            if not (df.equals(df0) and list(df.index) == list(df0.index)):
+                raise Violation("C16", "dataframe-argument-changed",
+                                obj=e.uid, op=op)
             mm = e.model.copy()
             new.append(add_entry(m, step["uid"] + ".0", o, mm, "df"))
         elif op == "tum_roundtrip":
